@@ -11,6 +11,7 @@ thread calls add() / assigns value, under the seeded thread scheduler with
 line pre-emption inside lazy_stream.py - see c16_threads.py.
 """
 import math
+import signal
 from fractions import Fraction
 
 from ..dataflow import SimSource
@@ -72,6 +73,31 @@ def snap(kind, v):
   if isinstance(v, Acc):
     return ("acc", v.v)
   return v
+
+
+HANG_SECONDS = 20
+
+
+class _Hang(BaseException):
+  pass
+
+
+def _on_alarm(signum, frame):
+  raise _Hang()
+
+
+def guarded(what, fn):
+  """ A call into the real mixer that does not come back is a hang of the
+  code under test (single thread: nothing else could make progress). """
+  signal.signal(signal.SIGALRM, _on_alarm)
+  signal.alarm(HANG_SECONDS)
+  try:
+    return fn()
+  except _Hang:
+    raise _Mismatch("hang", "%s did not return within %d s" % (what,
+                                                               HANG_SECONDS))
+  finally:
+    signal.alarm(0)
 
 
 class _Mismatch(Exception):
@@ -158,7 +184,14 @@ class C16(Property):
       d = W.pick("delta", DELTAS) if not W.chance("big", 1, 10) \
         else W.pick("bigd", [10, 12.5, 20.75, 9.99, 100.5, 333.25])
       ln = W.weighted("len", [(1, 0), (2, 1), (3, 2), (2, 4), (1, 7)])
-      events.append({"delta": d, "len": ln, "box": W.pick("box", CONTAINERS)})
+      ev = {"delta": d, "len": ln, "box": W.pick("box", CONTAINERS)}
+      if W.chance("chain", 1, 14):
+        # a sequencer: while it plays, this event schedules its successor
+        ev["box"] = "seq"
+        ev["chain"] = {"at": W.choose("at", ln + 2),
+                       "delta": W.pick("cdelta", [0, 1, 2, 0.5, 3.25, 6]),
+                       "len": W.weighted("clen", [(1, 0), (2, 1), (2, 3)])}
+      events.append(ev)
     demands = [W.weighted("dk", [(3, 1), (3, 2), (2, 4), (1, 9), (1, 0)])
                for _ in range(W.span("ndem", 0, 10))]
     if long_run:
@@ -289,6 +322,28 @@ class C16(Property):
                       % (wl["keep"], zero, exc))
     add_fn = lambda acc, item: acc + item
     states = [MixState(wl["keep"], make_zero(kind))]
+    inflight = []           # adds made by playing events during this sample
+    has_chain = any(ev.get("chain") for ev in wl["events"])
+    chain_ids = [1000]
+
+    def seq_box(vals, chain):
+      cid = chain_ids[0]
+      chain_ids[0] += 1
+      cvals = self._event_values(kind, cid, chain["len"])
+
+      def do_add():
+        res.counters["probe.event-schedules-its-successor"] += 1
+        inflight.append((chain["delta"], cvals))
+        mix.add(chain["delta"], list(cvals))
+
+      def gen():
+        for j, v in enumerate(vals):
+          if j == chain["at"]:
+            do_add()
+          yield v
+        if chain["at"] >= len(vals):
+          do_add()
+      return gen()
     adds = list(enumerate(wl["events"]))
     demands = list(wl["demands"])
     produced = 0
@@ -299,8 +354,19 @@ class C16(Property):
 
     def consume(k):
       nonlocal states, produced, ended
+      if has_chain and k > 1:
+        # events that call add() while they play: one sample at a time, so
+        # that every such call is attributed to the sample it happened in
+        for _ in range(k):
+          if ended:
+            break
+          consume(1)
+        return
+      del inflight[:]
       try:
-        got = mix.take(k)
+        got = guarded("take(%d)" % k, lambda: mix.take(k))
+      except _Mismatch:
+        raise
       except Exception as exc:
         raise _Mismatch("take-raised", "take(%d) after %d samples raised %r"
                         % (k, produced, exc))
@@ -308,7 +374,7 @@ class C16(Property):
       for j in range(k):
         alts = []
         for st in states:
-          alts.extend(st.next(add_fn))
+          alts.extend(st.next(add_fn, inflight=list(inflight)))
         if j < len(got):
           keep = [st for out, st in alts
                   if out is not END and snap(kind, out) == got[j]]
@@ -360,7 +426,12 @@ class C16(Property):
           except ValueError:
             pass
         try:
-          ret = mix.add(d, self._box(ev["box"], vals, i + 1))
+          if ev.get("chain") and not want_err:
+            box = seq_box(vals, ev["chain"])
+          else:
+            box = self._box(ev["box"] if ev["box"] != "seq" else "list",
+                            vals, i + 1)
+          ret = guarded("add", lambda: mix.add(d, box))
           err = None
         except ValueError:
           err = "ValueError"
@@ -404,18 +475,25 @@ class C16(Property):
                           "samples" % produced)
         res.counters["probe.keep-tail"] += 1
       else:
-        # everything that remains, then the end
-        bound = produced + 2
-        for st in states:
-          for T, eid, vals in st.pending:
-            bound = max(bound, max(int(T), st.n) + 3 + len(vals))
-          for eid, vals, idx in st.playing:
-            bound = max(bound, st.n + len(vals) - idx + 2)
-        consume(bound - produced + 3)
-        if not ended:
-          raise _Mismatch("too-long", "mixer still running after %d samples "
-                          "although no event is playing or pending"
-                          % produced)
+        # everything that remains, then the end.  The bound covers every
+        # event still to start or to be scheduled by a playing sequencer.
+        slack = 6 + sum(int(ev["chain"]["delta"]) + ev["chain"]["len"] + 2
+                        for ev in wl["events"] if ev.get("chain"))
+        while not ended:
+          bound = produced + 2
+          for st in states:
+            for T, eid, vals in st.pending:
+              bound = max(bound, max(int(T), st.n) + 3 + len(vals))
+            for eid, vals, idx in st.playing:
+              bound = max(bound, st.n + len(vals) - idx + 2)
+          before = produced
+          consume(bound - produced + 3)
+          if not ended and slack <= 0 and produced == before + \
+             (bound - before + 3):
+            raise _Mismatch("too-long", "mixer still running after %d "
+                            "samples although no event is playing or pending"
+                            % produced)
+          slack -= max(1, produced - before)
     st = states[0]
     starts = sorted(st.starts.values())
     if len(starts) != len(set(starts)):
